@@ -121,6 +121,9 @@ def _worker(job):
         if profile == 'C03':
             from . import c03
             return c03.run_seed(seed, tier, gopts)
+        if profile == 'C05RT':
+            from . import c05rt
+            return c05rt.run_seed(seed, tier, gopts)
         plan = gen.gen(profile, seed, tier, gopts)
         if profile == 'C06':
             res = check_c06(plan, mopts)
